@@ -35,8 +35,17 @@ def brute_hits(polys, geom):
     return [n for n, p in enumerate(polys) if p is not None and p.intersects(geom)]
 
 
-def query_points(model, rng, count):
-    """[(Point, class)] over: interior, shared_vertex, shared_edge, hole_interior, just_outside, far_outside."""
+# The same coordinates are put to EVERY dataset a worker handles: state leaking from one dataset (or convention
+# instance) into the next - a process-wide cache keyed by coordinates, say - shows up as a wrong answer here.
+FIXED_POINTS = [(110.0, -35.0), (120.5, -25.5), (125.0, -30.0), (131.25, -20.5), (140.0, -15.0), (149.5, -12.0)]
+
+
+def query_points(model, rng, count, fixed=True):
+    """[(Point, class)] over: interior, shared_vertex, shared_edge, hole_interior, just_outside, far_outside, fixed."""
+    return _query_points(model, rng, count) + ([(Point(*xy), 'fixed_probe') for xy in FIXED_POINTS] if fixed else [])
+
+
+def _query_points(model, rng, count):
     polys = model_polygons(model)
     live = [n for n, p in enumerate(polys) if p is not None]
     if not live:
@@ -79,7 +88,7 @@ def query_points(model, rng, count):
                 pt = Point(maxx + span * 3, maxy + span * 2)
         elif c == 'just_outside':
             side = pick(rng, ['l', 'r', 'b', 't'])
-            eps = pick(rng, [1e-9, 1e-6, span / max(2, len(model.cells))])
+            eps = pick(rng, [1e-9, 1e-7, 1e-6, 1e-5, 1e-4, span / max(2, len(model.cells))])
             x = float(rng.uniform(minx, maxx))
             y = float(rng.uniform(miny, maxy))
             pt = {'l': Point(minx - eps, y), 'r': Point(maxx + eps, y), 'b': Point(x, miny - eps), 't': Point(x, maxy + eps)}[side]
